@@ -51,6 +51,8 @@ structure CurState where
   ds : List Cell := []
   output : Option (List Bool) := none
   outputLen : Nat := 0
+  /-- `Xstate::set_stack_limit` (feature `calc_limit`, on by default): `push_data` refuses when the stack holds that many -/
+  stackLimit : Option Nat := none
 deriving DecidableEq, Repr
 
 /-- state right after `Xstate::boot()` -/
@@ -62,6 +64,7 @@ abbrev Res := CurState × Outcome Unit
 inductive POp where
   | push (c : Cell)                       -- `push_data` / a literal
   | intercept (yes : Bool)                -- `Xstate::intercept_output`
+  | limit (l : Option Nat)                -- `Xstate::set_stack_limit`
   | bits | bytes
   | readU (n : Nat) (bo : Option Bool)    -- u8 u8le u8be … u64be
   | readI (n : Nat) (bo : Option Bool)
@@ -97,7 +100,22 @@ def popUsize (s : CurState) (k : Nat → CurState → Res) : Res :=
 def popBitstr (s : CurState) (k : List Bool → CurState → Res) : Res :=
   popCell s fun c s => lift s c.toBitstr fun b => k b s
 
-def pushC (s : CurState) (c : Cell) : Res := ({ s with ds := c :: s.ds }, .ok ())
+/-- the stack holds as many cells as the limit allows -/
+def full (s : CurState) : Bool :=
+  match s.stackLimit with
+  | some lim => decide (s.ds.length ≥ lim)
+  | none => false
+
+/-- the error of `check_stack_limit` -/
+def limErr (s : CurState) : Xerr := .errorMsg s!"stack limit reached: {s.stackLimit.getD 0}"
+
+/-- `push_data`: refused when the stack limit is reached -/
+def pushC (s : CurState) (c : Cell) : Res :=
+  if full s then (s, .err (limErr s)) else ({ s with ds := c :: s.ds }, .ok ())
+
+/-- push, and go on only if the push was not refused -/
+def pushThen (s : CurState) (c : Cell) (k : CurState → Res) : Res :=
+  if full s then (s, .err (limErr s)) else k { s with ds := c :: s.ds }
 
 def byteorder (s : CurState) : Option Bool → Bool
   | some b => b
@@ -127,11 +145,12 @@ def rest (s : CurState) : Outcome (List Bool) :=
   if s.pos ≤ s.input.length then .ok (s.input.drop s.pos)
   else .err (.outOfBounds (s.base + s.pos) s.base (s.base + s.input.length))
 
-/-- peek `n` bits, convert, move the offset past them, push -/
+/-- peek `n` bits, convert, push, move the offset past them (the value goes on the stack first: a push that the
+    stack limit refuses leaves the offset where it was — `push_and_advance`) -/
 def readWith (s : CurState) (n : Nat) (conv : List Bool → Outcome Cell) : Res :=
   lift s (peek s n) fun bs =>
   lift s (conv bs) fun c =>
-  moveThen s (s.base + s.pos + n) fun s1 => pushC s1 c
+  pushThen s c fun s1 => moveAbs s1 (s.base + s.pos + n)
 
 def strCell (s : String) : Cell := .str s.toList
 
@@ -188,13 +207,13 @@ def scanNul : (fuel : Nat) → List Bool → Nat
     else if beVal (bs.take 8) = 0 then min 8 bs.length
     else min 8 bs.length + scanNul f (bs.drop 8)
 
-/-- `nulbytestr_read` -/
-def nulRead (s : CurState) (k : List Bool → CurState → Res) : Res :=
+/-- `nulbytestr_peek`, then push what `mk` makes of the bytes, then move the offset behind them -/
+def nulRead (s : CurState) (mk : List Bool → Cell) : Res :=
   lift s (rest s) fun r =>
   if r.length % 8 ≠ 0 then (s, .err .toBytestrError)
   else
     let len := scanNul r.length r
-    moveThen s (s.base + s.pos + len) fun s1 => k (r.take len) s1
+    pushThen s (mk (r.take len)) fun s1 => moveAbs s1 (s.base + s.pos + len)
 
 /-- `cstr`: bytes before the first NUL, each byte one char (Latin-1) -/
 def cstrChars (bs : List Bool) : List Char :=
@@ -254,6 +273,7 @@ def step (s : CurState) : POp → Res
   | .push c => pushC s c
   | .intercept true => ({ s with output := some (s.output.getD []) }, .ok ())
   | .intercept false => ({ s with output := none }, .ok ())
+  | .limit l => ({ s with stackLimit := l }, .ok ())
   | .bits => popUsize s fun n s => readWith s n fun bs => .ok (.bitstr bs)
   | .bytes => popUsize s fun n s =>
       if n * 8 > usizeMaxN then (s, .err .integerOverflow)
@@ -265,9 +285,8 @@ def step (s : CurState) : POp → Res
   | .int => popUsize s fun n s => readWith s n (convSigned s.bigEndian)
   | .float => popUsize s fun n s => readWith s n (convFloat n s.bigEndian)
   | .magic => popBitstr s fun pat s =>
-      lift s (peek s pat.length) fun bs =>
-      if bs ≠ pat then (s, .err (.matchError (mismatchPos bs pat)))
-      else moveThen s (s.base + s.pos + pat.length) fun s1 => pushC s1 (.bitstr bs)
+      readWith s pat.length fun bs =>
+        if bs ≠ pat then .err (.matchError (mismatchPos bs pat)) else .ok (.bitstr bs)
   | .seek => popUsize s fun p s => moveAbs s p
   | .find => popBitstr s fun pat s =>
       lift s (rest s) fun r =>
@@ -277,8 +296,8 @@ def step (s : CurState) : POp → Res
         | some i => pushC s (.int (s.base + s.pos + i * 8 : Nat))
         | none => pushC s .nil
   | .remain => pushC s (.int (remainOf s : Nat))
-  | .nulbytestr => nulRead s fun bs s => pushC s (.bitstr bs)
-  | .cstr => nulRead s fun bs s => pushC s (.str (cstrChars bs))
+  | .nulbytestr => nulRead s fun bs => .bitstr bs
+  | .cstr => nulRead s fun bs => .str (cstrChars bs)
   | .openBitstr base => popBitstr s fun b s =>
       ({ s with input := b, base := base, pos := 0, stash := ⟨s.input, s.base, s.pos⟩ :: s.stash }, .ok ())
   | .closeBitstr =>
